@@ -237,7 +237,7 @@ CLAIMED.update({
 # what was added to the correspondence side while testing the checks with seeded changes (DESIGN.md section 13)
 ADDED = {
     "C01": "Also: the audit-failure profile, reserved-prefix and path-like names, monitor changes_only_granted (whichever secrets a call changed, the caller holds the action on exactly those), and a concurrent leg in which a caller without a grant makes the same requests at the same time and must be refused every time. Sixth round: names of 256/8192 bytes and neighbours with grants on the exact long names; a call that returns neither value nor error, panics or never returns is an observation (result_is_specified). Seventh round: forwarding headers and loopback peers with a WhoIs that answers by the address asked.",
-    "C02": "Also: the save-failure profile, the caller's buffer overwritten as soon as Put returns, near-duplicate values, the bytes of any surviving version, whitespace-decorated names. Sixth round: clean restarts inside histories (the numbering goes on), generator aimed at the version counter, calls under a watchdog (call_returns). Seventh round: sparse observation of the served state; reads_total (proved of the specification: reads_total_on_model).",
+    "C02": "Also: the save-failure profile, the caller's buffer overwritten as soon as Put returns, near-duplicate values, the bytes of any surviving version, whitespace-decorated names. Sixth round: clean restarts inside histories (the numbering goes on), generator aimed at the version counter, calls under a watchdog (call_returns). Seventh round: sparse observation of the served state; reads_total (proved of the specification: reads_total_on_model); all 22 database-family monitor clauses proved of the specification's own step (all_monitor_clauses_sound); the four mutators of db/kv.go tied statement by statement (fact_mutators_as_transcribed).",
     "C03": "Also: reopened copies with modes 0600/0644/0640/0400, a multi-megabyte database, order independence of the clear document (schema_order_independent), and a concurrent leg (at quiescence the file holds what the server serves). Sixth round: restarts inside histories, stray files under temporary names next to the database, crafted schema-v1 files with versions beyond 2^31 sealed by the harness's own writer. Seventh round: the database opened through a relative symbolic link from another working directory.",
     "C04": "Also: EACCES/EPERM in the fault enumeration, files that already exist with mode 0644, a follow-up save by the restarted process after every kill, and concurrent histories during which the state directory vanishes for moments. Sixth round: after every failed save a twin server on a copy of the file gets every later call and must answer alike (fault_leaves_served_state).",
     "C05": "Also: save failures inside the crypto histories (the key-encryption key must not be consulted), truncation to 0/1/2/len-1 bytes always, a reopen half way through every history, a save traced on a file that exists with mode 0644. Sixth round: one database over years of virtual time with the key service unreachable once open (kek_only_at_open). Seventh round: the backup family (what lies beside the database, with which modes, during an upload).",
